@@ -321,12 +321,16 @@ pub fn run(cases: &[Value], trace: &mut Trace, seed: u64) {
                     break;
                 }
             }
-            let _ = t.join();
+            // a call that never returns even after its socket was shut down (e.g. a self-deadlock) must not take the
+            // harness with it: the thread is left behind and the call is recorded as hung
+            if !hang || out.is_some() || t.is_finished() {
+                let _ = t.join();
+            }
             let (_, leftover) = split_messages(&chunks_all);
             close_chunk_fds(&chunks_all);
             let (res, args, dec, data, lent) = match out {
                 Some(o) => (o.res, o.args, o.dec, o.data, o.lent),
-                None => ("panic".into(), json!({}), json!([]), vec![], "none".into()),
+                None => ((if hang { "stuck" } else { "panic" }).into(), json!({}), json!([]), vec![], "none".into()),
             };
             // big payloads are compared here byte for byte (pure equality, no layout knowledge)
             let mut wire2 = Vec::new();
